@@ -31,6 +31,7 @@ type decideSpec struct {
 	anchor  string
 	target  func(r *Run, ci ssa.CallInstruction) bool
 	calls   map[string]string // accepted predicates (suffix of the callee's name) → reason
+	refuted map[string]string // predicates whose use as an exemption is known to be wrong → why
 	strs    map[string]string // accepted string constants a value may be compared with → reason
 	fields  map[string]string // a field compared with the same field of another value → reason
 	lenOf   func(t types.Type) bool
@@ -101,6 +102,7 @@ func ruleDeciding(spec decideSpec) ruleFn {
 					return
 				case *ssa.Call:
 					resultIdx = c.Index
+					delete(seen, ssa.Value(t)) // each result of the call is a condition of its own
 					classify(in, t, depth+1)
 					resultIdx = -1
 					return
@@ -122,6 +124,13 @@ func ruleDeciding(spec decideSpec) ruleFn {
 					return
 				}
 				name := shortCallee(&c.Call)
+				for k, why := range spec.refuted {
+					if strings.HasSuffix(name, k) && resultIdx <= 0 {
+						n++
+						r.Bad(spec.rule, fnName(in), "condition "+k, r.P.pos(c.Pos()), spec.what+" depends on "+k+": "+why)
+						return
+					}
+				}
 				for k, reason := range spec.calls {
 					if strings.HasSuffix(name, k) {
 						report(in, k, c.Pos(), reason, true)
@@ -353,7 +362,12 @@ var ruleMergeExemptions = ruleDeciding(decideSpec{
 	minimum: 3,
 })
 
-// R13d.lookup — PlanningContext.GetURL: when the routing table is consulted.
+// R13d.lookup — PlanningContext.GetURL: when the routing table is consulted. The test on
+// GetTypeIsImplementsNode (fields of a type that is known but not a Node type stay with the
+// enclosing step's service, whatever the table says) is NOT a confirmed exemption: the merge
+// accepts a plain type that two services declare with disjoint fields, and a field of the
+// second declaration selected under the first service's object is then sent to a service that
+// does not declare it (fifth audit, known finding F52).
 var ruleRouteLookupExemptions = ruleDeciding(decideSpec{
 	rule:   "R13d.lookup",
 	anchor: "planner.(*PlanningContext).GetURL",
@@ -361,7 +375,9 @@ var ruleRouteLookupExemptions = ruleDeciding(decideSpec{
 	calls: map[string]string{
 		"common.IsBuiltinName":                        "introspection names are answered by the gateway itself",
 		"common.IsRootObjectName":                     "fields of root types are always looked up",
-		"merger.(TypeURLMap).GetTypeIsImplementsNode": "value types (known, not Node) stay with the service that returned the object; unknown types are refused",
+	},
+	refuted: map[string]string{
+		"merger.(TypeURLMap).GetTypeIsImplementsNode": "every field of a type that is known but not a Node type is left with the enclosing step's service without a look at the routing table; the merge accepts a plain type that two services declare with disjoint fields, so a field of the other declaration is sent to a service that does not declare it and never reaches its owner",
 	},
 	strs: map[string]string{
 		"%#!": "the internal pseudo-service is never a fallback for a real field",
